@@ -1763,6 +1763,12 @@ class Parallel(Logger):
         if self.n_completed_tasks < self.n_dispatched_tasks:
             return True
 
+        # An error was registered while nothing is left to wait for (e.g. the
+        # input iterable raised before any task could be dispatched): enter
+        # the retrieval loop so that it is raised instead of being dropped.
+        if self._aborting:
+            return True
+
         # For backends that does not support retrieving asynchronously the
         # result to the main process, all results must be carefully retrieved
         # in the _retrieve loop in the main thread while the backend is alive.
